@@ -31,10 +31,10 @@ func init() {
 	register(&PropertyDef{
 		ID:          "C17",
 		Title:       "Rendezvous points are deterministic, agreed between peers, and rotate on time",
-		Explanation: "Decides, from the type-checked SSA of /repo and without executing it: (D1) by a backward, order-aware dependency query, that the digest returned by GenerateRendezvousPointForPeriod depends on each of topic, seed and date and on no clock, randomness or mutable package state, and that RoundTimePeriod/NextTimePeriod are pure functions of (date, interval); (D2) by abstract evaluation over the ordering of deadline and clock (representatives: deadline 2 s / 1 h before and after now), that Point.IsExpired is true exactly for a passed deadline and Point.TTL has the sign of deadline-now; (D3) by abstract evaluation over a period lattice (instant -> period index relative to a base instant, aligned to the period start or not), with IsExpired/TTL replaced by the contract D2 checks: NextTimePeriod is RoundTimePeriod plus one interval for either sign of the interval; NewRendezvousPointForPeriod digests (topic, seed, start of the period containing its time argument), sets the deadline to the end of that period and stores topic, seed and owner unchanged; NextPoint of an expired point builds the point of the period containing the clock with the same topic and seed; every exported lookup returns on a hit the cached point while it is live and, once it is expired, a newly built point of the current period that has been passed to the function storing points in both caches, and refuses a miss with an error; structurally: points are stored in both caches on the same path, under their own topic and their own encoded rotation value; the raw-rotation lookup encodes exactly like Point.RotationTopic; cache entries are deleted only in timer callbacks (never synchronously on the rotation path, never with a constant delay <= 0), only from the rotation cache, only under the key of the replaced point; every cache access holds the cache mutex in the required mode, including in callers and the timer callback; (D4) Marshal resolves the point for the message address, fails when the lookup fails, and sends that point's raw rotation value; Unmarshal looks up the RawRotation of the message decoded from the payload, fails on every path when the lookup fails, and opens the sealed box under the resolved point's topic; the store-opening path registers rotation and shared key under the same topic; (D5) every site that rebuilds a point for time.Now() behind a test of a point's deadline (swiper announce/watch loops, NextPoint) is reached on the deadline-passed side of the test. Not decided: the arithmetic inside RoundTimePeriod (floor to a multiple of the interval; covered by the project's unit test), HMAC/SHA-256 strength, agreement across real clocks and clock skew, the length of the grace period (only that it is not zero by construction), the cadence of the swiper loops, behaviour for intervals below one second.",
+		Explanation: "Decides, from the type-checked SSA of /repo and without executing it: (D1) by a backward, order-aware dependency query, that the digest returned by GenerateRendezvousPointForPeriod depends on each of topic, seed and date and on no clock, randomness or mutable package state, and that RoundTimePeriod/NextTimePeriod are pure functions of (date, interval); (D2) by abstract evaluation over the ordering of deadline and clock (representatives: deadline 2 s / 1 h before and after now), that Point.IsExpired is true exactly for a passed deadline and Point.TTL has the sign of deadline-now; (D3) by abstract evaluation over a period lattice (instant -> period index relative to a base instant, aligned to the period start or not), with IsExpired/TTL replaced by the contract D2 checks: NextTimePeriod is RoundTimePeriod plus one interval for either sign of the interval; NewRendezvousPointForPeriod digests (topic, seed, start of the period containing its time argument), sets the deadline to the end of that period and stores topic, seed and owner unchanged; NextPoint of an expired point builds the point of the period containing the clock with the same topic and seed; every exported lookup returns on a hit the cached point while it is live and, once it is expired, a newly built point of the current period that has been passed to the function storing points in both caches, and refuses a miss with an error; structurally: points are stored in both caches on the same path, under their own topic and their own encoded rotation value; the raw-rotation lookup encodes exactly like Point.RotationTopic; cache entries are deleted only in timer callbacks (never synchronously on the rotation path, never with a constant delay <= 0), only from the rotation cache, only under the key of the replaced point; every cache access holds the cache mutex in the required mode, including in callers and the timer callback; (D4) Marshal resolves the point for the message address, fails when the lookup fails, and sends that point's raw rotation value; Unmarshal looks up the RawRotation of the message decoded from the payload, fails on every path when the lookup fails, and opens the sealed box under the resolved point's topic; the store-opening path registers rotation and shared key under the same topic; (D5) every site that rebuilds a point for time.Now() behind a test of a point's deadline (swiper announce/watch loops, NextPoint) is reached on the deadline-passed side of the test; (D6) at every module call site of a lookup by rotation value (the lookups that read the rotation cache), no branch whose condition is computed from both the value looked up and the returned point's rotation value (directly or through a module helper) has a side that only fails: the lookup answers a previous-period value with the current point, so such a rejection would cancel the grace period for that consumer. Not decided: the arithmetic inside RoundTimePeriod (floor to a multiple of the interval; covered by the project's unit test), HMAC/SHA-256 strength, agreement across real clocks and clock skew, the length of the grace period (only that it is not zero by construction), the cadence of the swiper loops, behaviour for intervals below one second.",
 		Trusted:     []string{"golang.org/x/tools go/packages+go/ssa (v0.29.0)", "semantics of package time (Now/Until/Since/Sub/After/Before/Add/Unix*), crypto/hmac, encoding/binary, encoding/base64 as documented", "the checker's abstract evaluator (absint.go)"},
 		Assumptions: []string{"dependencies behave as documented; only module code is analysed", "rotation intervals are whole seconds >= 1 s (the quantifier of the property)", "D3 assumes the contract of IsExpired/TTL that D2 checks"},
-		Floors:      map[string]int{"D1": 3, "D2": 2, "D3": 16, "D4": 7, "D5": 3},
+		Floors:      map[string]int{"D1": 3, "D2": 2, "D3": 16, "D4": 7, "D5": 3, "D6": 2},
 		Run:         runC17,
 	})
 }
@@ -2546,6 +2546,195 @@ func c17RunD5(c *Ctx, a *c17Anchors) {
 	c.count("clock_rebuild_sites", n)
 }
 
+// ---------------------------------------------------------------------------
+// D6: consumers of a lookup by rotation value keep the grace period. The lookup returns the
+// CURRENT point when the value asked for belongs to an expired period (that is how a previous
+// rotation value stays accepted), so a consumer that rejects because the returned point's
+// rotation value differs from the value it looked up refuses every previous-period value.
+
+// c17CondSlice: the values the condition is computed from, inside fn, not looking into stop.
+func c17CondSlice(v ssa.Value, stop ssa.Value, seen map[ssa.Value]bool) {
+	if v == nil || seen[v] {
+		return
+	}
+	seen[v] = true
+	if v == stop {
+		return
+	}
+	if ex, ok := v.(*ssa.Extract); ok && ex.Tuple == stop {
+		return
+	}
+	in, ok := v.(ssa.Instruction)
+	if !ok {
+		return
+	}
+	var ops [12]*ssa.Value
+	for _, op := range in.Operands(ops[:0]) {
+		if op != nil && *op != nil {
+			c17CondSlice(*op, stop, seen)
+		}
+	}
+	// memory read through a local: the values stored into it
+	if ld, isLoad := v.(*ssa.UnOp); isLoad && ld.Op == token.MUL {
+		if al, isAlloc := ld.X.(*ssa.Alloc); isAlloc && al.Referrers() != nil {
+			for _, r := range *al.Referrers() {
+				if st, isStore := r.(*ssa.Store); isStore && st.Addr == ssa.Value(al) {
+					c17CondSlice(st.Val, stop, seen)
+				}
+			}
+		}
+	}
+}
+
+// c17ReadsRotation: fn (or a module function it calls, depth 2) reads the rotation value of
+// its parameter idx through the exported accessors.
+func (a *c17Anchors) readsRotation(w *World, fn *ssa.Function, idx int, depth int) bool {
+	if fn == nil || fn.Blocks == nil || idx >= len(fn.Params) || depth > 2 {
+		return false
+	}
+	par := ssa.Value(fn.Params[idx])
+	for _, b := range fn.Blocks {
+		for _, in := range b.Instrs {
+			call, ok := in.(*ssa.Call)
+			if !ok {
+				continue
+			}
+			f := staticCallee(call.Common())
+			for i, arg := range call.Common().Args {
+				if stripConv(arg) != par {
+					continue
+				}
+				if f != nil && (f == a.rawRotAcc || f == a.rotAcc) {
+					return true
+				}
+				if f != nil && inModule(f) && a.readsRotation(w, f, i, depth+1) {
+					return true
+				}
+			}
+		}
+	}
+	return false
+}
+
+func c17SameKey(v, key ssa.Value) bool {
+	v, key = stripConv(v), stripConv(key)
+	if v == key {
+		return true
+	}
+	lv, ok1 := accessPathLocal(v)
+	lk, ok2 := accessPathLocal(key)
+	return ok1 && ok2 && lv.Base == lk.Base && lv.Path == lk.Path
+}
+
+func c17RunD6(c *Ctx, a *c17Anchors) {
+	w := c.W
+	if a.ri == nil || a.point == nil || len(a.lookups) == 0 {
+		return // reported by D3
+	}
+	ci := c17CachesMemo(c, a)
+	if ci == nil || ci.rotF < 0 {
+		c.undecided("D6", "rendezvous lookups by rotation value", token.NoPos, "the rotation cache could not be identified (see D3)")
+		return
+	}
+	byRotation := map[*ssa.Function]bool{}
+	for _, l := range a.lookups {
+		for f := range w.reachableFuncs([]*ssa.Function{l}, 2) {
+			for _, ac := range ci.acc[f] {
+				if ac.Kind == "lookup" && ac.Field == ci.rotF {
+					byRotation[l] = true
+				}
+			}
+		}
+	}
+	n := 0
+	for _, fn := range w.ModFuncs {
+		for _, b := range fn.Blocks {
+			for _, in := range b.Instrs {
+				call, ok := in.(*ssa.Call)
+				if !ok {
+					continue
+				}
+				callee := staticCallee(call.Common())
+				if callee == nil || !byRotation[callee] || len(call.Common().Args) < 2 {
+					continue
+				}
+				n++
+				c.analysed(fn)
+				key := call.Common().Args[1]
+				construct := fnName(fn) + "->" + callee.Name() + "+grace"
+				bad := ""
+				nIf := 0
+				for _, blk := range fn.Blocks {
+					ifi, isIf := blk.Instrs[len(blk.Instrs)-1].(*ssa.If)
+					if !isIf {
+						continue
+					}
+					seen := map[ssa.Value]bool{}
+					c17CondSlice(ifi.Cond, call, seen)
+					usesRot, usesKey := false, false
+					for v := range seen {
+						if c17SameKey(v, key) {
+							usesKey = true
+						}
+						vc, isCall := v.(*ssa.Call)
+						if !isCall || vc == call {
+							continue
+						}
+						f := staticCallee(vc.Common())
+						for i, arg := range vc.Common().Args {
+							if !c17IsPointOf(arg, call) {
+								continue
+							}
+							if f != nil && (f == a.rawRotAcc || f == a.rotAcc) {
+								usesRot = true
+							} else if f != nil && inModule(f) && a.readsRotation(w, f, i, 0) {
+								usesRot = true
+								// the helper receives the key too?
+								for _, other := range vc.Common().Args {
+									if c17SameKey(other, key) {
+										usesKey = true
+									}
+								}
+							}
+						}
+					}
+					if !usesRot || !usesKey {
+						continue
+					}
+					nIf++
+					// does one side only fail while the other can succeed?
+					sides := [2]struct{ ret, succ int }{}
+					for i := 0; i < 2; i++ {
+						region := reachFromEdges([]edge{{blk, blk.Succs[i]}}, nil)
+						for _, r := range returnsOf(fn) {
+							if region[r.Block()] {
+								sides[i].ret++
+								if isSuccessReturn(r) {
+									sides[i].succ++
+								}
+							}
+						}
+					}
+					for i := 0; i < 2; i++ {
+						if sides[i].ret > 0 && sides[i].succ == 0 && sides[1-i].succ > 0 && errResultIndex(fn.Signature) >= 0 {
+							bad = c.pos(posOf(ifi))
+						}
+					}
+				}
+				if bad != "" {
+					c.fail("D6", construct, posOf(call), "after the lookup succeeded the function fails (test at %s) when the returned point's rotation value differs from the value it looked up; %s returns the current point for a value of the previous period, so every message carrying the peer's previous rotation value is refused: the grace period is lost on this path", bad, callee.Name())
+				} else {
+					c.ok("D6", construct, posOf(call), "no failure depends on comparing the returned point's rotation value with the value looked up (%d such comparisons, none rejecting)", nIf)
+				}
+			}
+		}
+	}
+	if n == 0 {
+		c.undecided("D6", "rendezvous lookups by rotation value", token.NoPos, "no module call site of a lookup by rotation value found")
+	}
+	c.count("rotation_lookup_consumers", n)
+}
+
 func runC17(c *Ctx) {
 	a := c17Find(c)
 	c17RunD1(c, a)
@@ -2554,4 +2743,5 @@ func runC17(c *Ctx) {
 	c17RunD3Cache(c, a)
 	c17RunD4(c, a)
 	c17RunD5(c, a)
+	c17RunD6(c, a)
 }
